@@ -161,7 +161,27 @@ fn record(a: &Args) {
         };
         let sparse = m > 16;
         let mut prev: Vec<f64> = (0..m).map(|k| tr.get_value(k)).collect();
+        // every other run a second, unobserved tracker (same or another size) is used between the steps of the observed
+        // one: trackers are independent objects
+        let mut decoy = if run % 2 == 1 {
+            let dm = if run % 4 == 1 { m } else { rng.random_range(1..=maxm) };
+            catch(|| VerifMaxTracker::new(dm)).ok().map(|t| (t, dm))
+        } else {
+            None
+        };
         for _step in 0..len {
+            if let Some((d, dm)) = decoy.as_mut() {
+                let k = rng.random_range(0..*dm);
+                let x = pool[rng.random_range(0..pool.len())];
+                let _ = catch(|| {
+                    if rng.random_range(0..10) == 0 {
+                        d.reset();
+                    } else {
+                        d.update(k, x);
+                    }
+                    d.get_max_value()
+                });
+            }
             let is_reset = rng.random_range(0..25) == 0;
             let k = rng.random_range(0..m);
             let x = pool[rng.random_range(0..pool.len())];
